@@ -177,6 +177,10 @@ class PrepareFrame(Contract):
         attrs = c.alloc(RecObj("RTFBody", {"subline_by": sub, "page_by": pb, "new_page": newp, "pageby_row": pbr, "col_rel_width": Opt(relnone, rel),
                                            "text_format": fmt, "text_font_size": c.fresh("text_font_size", T.Real), "text_color": None},
                                pyclass=body_cls, fresh=False, origin="CALLER"))
+        real_fields = [n for n, f in (body_cls.pyclass if hasattr(body_cls, "pyclass") else body_cls).model_fields.items() if "list[list[" in str(f.annotation).replace("typing.", "").replace("List", "list")]
+        names = [n for n in real_fields if n != "col_rel_width"]
+        self._anyfield = z3.Const("any_list_valued_field_name", StrSort)
+        c.requires("generic_attribute_is_one_of_the_real_nested_list_fields", Or(*[self._anyfield == lit(n) for n in names]) if names else z3.BoolVal(False))
         c.bind("df", df)
         c.bind("rtf_attrs", attrs)
         fm = c.obj(fmt)
@@ -190,7 +194,26 @@ class PrepareFrame(Contract):
         def h_type(I, st, args, kwargs, node):
             # representative-field abstraction of type(processed_attrs).model_fields (see DESIGN 0a.2): col_rel_width, one list-valued
             # formatting attribute, one scalar attribute, one unset attribute - every other field is treated by the same loop body
-            return st.alloc(RecObj("ModelClass", {"model_fields": st.alloc(ListObj(items=["col_rel_width", "text_format", "text_font_size", "text_color"], fresh=False))}, fresh=False))
+            # The list-valued formatting attribute is enumerated under a SYMBOLIC name (any nested-list-capable field of the real class other than
+            # col_rel_width), so code that treats fields differently by their names is followed for every such name.
+            return st.alloc(RecObj("ModelClass", {"model_fields": st.alloc(ListObj(items=["col_rel_width", self._anyfield, "text_font_size", "text_color"], fresh=False))}, fresh=False))
+
+        def _named(args):
+            nm = norm_str(args[1]) if len(args) > 1 else None
+            return z3.is_expr(nm) and nm.eq(self._anyfield)
+
+        def h_getattr(I, st, args, kwargs, node):
+            from pyvc.calls import call_builtin
+            if _named(args):
+                return I.get_attr(st, args[0], "text_format", node)
+            return call_builtin(I, st, "getattr", args, kwargs, node)
+
+        def h_setattr(I, st, args, kwargs, node):
+            from pyvc.calls import call_builtin
+            if _named(args):
+                I.set_attr(st, args[0], "text_format", args[2], node)
+                return None
+            return call_builtin(I, st, "setattr", args, kwargs, node)
 
         def model_copy(I, st, args, kwargs, node):
             if kwargs.get("deep") is not True:
@@ -200,7 +223,7 @@ class PrepareFrame(Contract):
 
         def new_bv(I, st, cv, args, kwargs, node):
             return st.alloc(RecObj("BroadcastValue", {"value": kwargs.get("value"), "dimension": kwargs.get("dimension")}, pyclass=cv.pyclass))
-        return {"type": h_type, "rtf_attrs.model_copy": model_copy, "new:BroadcastValue": new_bv}
+        return {"type": h_type, "rtf_attrs.model_copy": model_copy, "new:BroadcastValue": new_bv, "getattr": h_getattr, "setattr": h_setattr}
 
     summaries = {"BroadcastValue.to_list": to_list_summary}
 
